@@ -19,9 +19,9 @@ from concurrent.futures import ThreadPoolExecutor
 V = os.path.dirname(os.path.dirname(os.path.abspath(__file__)))
 NEIGH = {
     "C01": ["C01", "C10", "C02"], "C02": ["C02", "C07", "C01"], "C03": ["C03", "C02"], "C04": ["C04", "C10"],
-    "C05": ["C05", "C15"], "C06": ["C06", "C02"], "C07": ["C07", "C19"], "C08": ["C08", "C09"], "C09": ["C09", "C08"],
-    "C10": ["C10", "C12", "C01"], "C11": ["C11", "C01"], "C12": ["C12", "C10", "C14"], "C13": ["C13", "C08"],
-    "C14": ["C14", "C12"], "C15": ["C15", "C16"], "C16": ["C16", "C15"], "C17": ["C17", "C15"], "C18": ["C18"],
+    "C05": ["C05", "C15", "C10"], "C06": ["C06", "C02", "C01"], "C07": ["C07", "C19"], "C08": ["C08", "C09", "C16"], "C09": ["C09", "C08"],
+    "C10": ["C10", "C12", "C01"], "C11": ["C11", "C01"], "C12": ["C12", "C10", "C14", "C19"], "C13": ["C13", "C08"],
+    "C14": ["C14", "C12"], "C15": ["C15", "C16", "C17"], "C16": ["C16", "C15"], "C17": ["C17", "C15"], "C18": ["C18"],
     "C19": ["C19", "C07"], "C20": ["C20", "C19"],
 }
 
